@@ -757,6 +757,18 @@ impl<S: Service> Scenario for Ps2<S> {
                     let v = safe_read_u64(x.payload() as *const u64)?;
                     if !(7000..8000).contains(&v) { return Err(format!("received-{:x}", v)); }
                 }
+                // with both publishers gone a NEW publisher must still reach the subscriber
+                if self.publisher1.is_none() && self.publisher2.is_none() {
+                    if let Some(svc) = self.svc.as_ref() {
+                        let p = res(svc.publisher_builder().create())?;
+                        res(p.send_copy(7500 + round))?;
+                        match res(s.receive())? {
+                            Some(x) if *x.payload() == 7500 + round => {}
+                            Some(x) => return Err(format!("new-publisher-delivered-{:x}", *x.payload())),
+                            None => return Err("new-publisher-sample-not-received".into()),
+                        }
+                    }
+                }
                 Ok(())
             }
             5 => canary(self.sample1.as_ref().unwrap().payload() as *const u64, CANARY_P1),
@@ -899,7 +911,11 @@ fn classify(l: &mut Listing, name: &str, in_nodes_dir: bool) {
     }
 }
 
-fn listing(root: &str, prefix: &str) -> Listing {
+/// `known_shm`: None = scan /dev/shm for entries with the run's prefix (and return their names);
+/// Some(names) = only check which of these names still exist (per-drop listings: no named shm object is
+/// created by a drop or a probe except those a probe removes again; the full scans after construction and
+/// at the end see everything)
+fn listing_with(root: &str, prefix: &str, known_shm: Option<&Vec<String>>) -> (Listing, Vec<String>) {
     let mut l = Listing::default();
     if let Ok(rd) = std::fs::read_dir(root) {
         for e in rd.flatten() {
@@ -929,18 +945,36 @@ fn listing(root: &str, prefix: &str) -> Listing {
             }
         }
     }
-    if let Ok(rd) = std::fs::read_dir("/dev/shm") {
-        for e in rd.flatten() {
-            let name = e.file_name().to_string_lossy().to_string();
-            if name.starts_with(prefix) {
-                classify(&mut l, &name, false);
+    let mut shm = vec![];
+    match known_shm {
+        Some(names) => {
+            for name in names {
+                if std::path::Path::new("/dev/shm").join(name).exists() {
+                    classify(&mut l, name, false);
+                    shm.push(name.clone());
+                }
+            }
+        }
+        None => {
+            if let Ok(rd) = std::fs::read_dir("/dev/shm") {
+                for e in rd.flatten() {
+                    let name = e.file_name().to_string_lossy().to_string();
+                    if name.starts_with(prefix) {
+                        classify(&mut l, &name, false);
+                        shm.push(name);
+                    }
+                }
             }
         }
     }
     l.other.sort();
     l.persistent.sort();
     l.persistent.dedup();
-    l
+    (l, shm)
+}
+
+fn listing(root: &str, prefix: &str) -> Listing {
+    listing_with(root, prefix, None).0
 }
 
 impl Listing {
@@ -1028,12 +1062,13 @@ fn run_perm<S: Service, T: Scenario>(
         variant, pattern, nn, order.len(), fs as u8, order_s.join(","), sc.names().join(",")
     ));
     let (an, asv) = api_counts::<S>(&d.cfg);
-    out(&format!("S {}", listing(&d.root, &d.prefix).text(an, asv)));
+    let (l0, known_shm) = listing_with(&d.root, &d.prefix, None);
+    out(&format!("S {}", l0.text(an, asv)));
     let nslots = sc.names().len();
     for (round, &k) in order.iter().enumerate() {
         let r = catch_unwind(AssertUnwindSafe(|| sc.drop_slot(k)));
         let (an, asv) = api_counts::<S>(&d.cfg);
-        let counts = listing(&d.root, &d.prefix).text(an, asv);
+        let counts = listing_with(&d.root, &d.prefix, Some(&known_shm)).0.text(an, asv);
         let mut smokes = vec![];
         for j in 0..nslots {
             if sc.alive(j) {
